@@ -168,5 +168,8 @@ func (i Imports) Swap(j, k int) {
 }
 
 func (i Imports) Less(j, k int) bool {
+	if i[j] == nil || i[k] == nil {
+		return i[j] == nil && i[k] != nil
+	}
 	return i[j].Subject < i[k].Subject
 }
